@@ -12,1066 +12,1299 @@ Definition show_fres (r : fres) : string :=
   end.
 Definition check (rs : list rune) : string := digest (show_fres (format_res rs)).
 Definition full (rs : list rune) : string := show_fres (format_res rs).
-Eval vm_compute in ("<<<M1597>>>" ++ check (runes_of_ascii "options {
-    MetaDataX = true
-}
-
-root packet u8x {
-    repeat uint16 u8x `" ++ [28040; 24687; 31867; 22411]%N ++ runes_of_ascii "`,
-    @tag(42)
-    char[7] trueish @lengthOf(Pad),
-    tag @lengthOf(A) `say ""hi""`,
-    float rootA,// " ++ [27880; 37322]%N ++ runes_of_ascii "
-    Foo,
-    repeat uint32 calculatedFrom,
-}
-
-root packet u128 {
-    repeat Packet metadata,
-    repeat zchar[0123456789] len `u8 x,`,
-    f32 BodyLength @lengthOf(Z9_) `it's`,
-    match crc as Packet {
-        0 : i64_,
-        [255] : rootA,
-        [""a	b"", ""\" ++ [233]%N ++ runes_of_ascii """, ""\" ++ [233]%N ++ runes_of_ascii """, 0, 4294967296] : i8i8,
-    },
-    @tag(1)
-    @calculatedFrom(""\" ++ [233]%N ++ runes_of_ascii """)
-    string f32a @calculatedFrom(""abc""),
-    repeat As {
-        matchKey {
-            crc @calculatedFrom(""// no comment""),
-        },
-        lengthOf `crlf
-        line`,
-        // a // b
-        // a // b
-        T Pad `a\`,
-        repeat i8i8 charz,// a // b
-    },
-}
-
-packet packetx {
-    @lengthOf(Packet)
-    repeat uint8x `line1
-    line2`,
-    @tag(0123456789)
-    string BodyLength @calculatedFrom(""" ++ [28040; 24687]%N ++ runes_of_ascii """),// trailing space 
-    zchar[42] MetaDataX,
-    char A @lengthOf(tag) `two words`,
-    @tag(10)
-    @calculatedFrom(""" ++ [28040; 24687]%N ++ runes_of_ascii """)
-    @calculatedFrom(""x y"")
-    char[7] repeatCount @calculatedFrom(""// no comment""),
-    @calculatedFrom(""it's"")
-    char[65535] packetx `// not a comment`,
-    @leftPad(' ')
-    match tag as packetx {
-        00 : int,
-    },
-    @tag(7)
-    @lengthOf(float)
-    @tag(0123456789)
-    Z9_,
-    @tag(00)
-    tag {
-        uint16 MetaDataX,
-        u tag `tab	here`,
-        float64 Packet @calculatedFrom(""{,}""),
-        x_y_z u128,
-    },
-    char[] msg_type @lengthOf(calculatedFrom) `line1
-    line2`,
-}
-
-MetaData float {
-    uint32 crc,
-    charz msg_type,
-    u128 crc,
-    string stringy `" ++ [233]%N ++ runes_of_ascii "`,
-}")).
-Eval vm_compute in ("<<<M1655>>>" ++ check (runes_of_ascii "root packet u {
-    char[007] x_y_z `two words`,
-    int16 u8x @calculatedFrom(""packet""),
-    float64 falsey @calculatedFrom(""\" ++ [233]%N ++ runes_of_ascii """) `u8 x,`,
-    trueish @calculatedFrom(""" ++ [233]%N ++ runes_of_ascii "t" ++ [233]%N ++ runes_of_ascii """) `tab	here`,
-    @tag(1)
-    repeat char[4294967296] u,
-    match i8i8 as o {
-        [""a\\""] : matchKey,
-        [
-            0123456789, ""x y"", 0, 00, ""a	b"",
-            ""{,}"", ""{,}"", 007
-        ] : u8x,
-        255 : u128,
-        [""" ++ [28040; 24687]%N ++ runes_of_ascii """, 0123456789, 65535, ""\n""] : _x,
-        7 : falsey,
-    },
-    @leftPad()
-    // " ++ [128512]%N ++ runes_of_ascii " emoji
-    charz @lengthOf(A),// `tick` ""quote"" 'q'
-}
-
-root packet stringy {
-    repeat MetaDataX {
-        float32 T,
-        string x_y_z `a\`,
-        repeat _x zchar `u8 x,`,
-    },
-}
-
-packet Foo {
-    @lengthOf(roots)
-    calculatedFrom a1,
-    zchar[0123456789] _x,
-    // @lengthOf(
-    // trailing space 
-    match roots as MetaDataX {
-        /// triple
-        42 : _x,
-        3 : msg_type,
-        7 : a1,
-        """" : i8i8,
-        //x
-        [""" ++ [233]%N ++ runes_of_ascii "t" ++ [233]%N ++ runes_of_ascii """] : i8i8,
-        00 : leftPad,
-    },
-    @calculatedFrom("""")
-    char[00] Foo @lengthOf(uint8x),
-    f32 chars,
-}
-
-packet metadata {
-}
-
-MetaData i64_ {
-    lengthOf options1,
-    // @lengthOf(
-    //x
-    a1 A,
-    x Header,
-}")).
-Eval vm_compute in ("<<<M1928>>>" ++ check (runes_of_ascii "packet
-
-rootA
+Eval vm_compute in ("<<<M1389>>>" ++ check (runes_of_ascii "options { // c1
+LittleEndian // c2a
+  // c2b
+= // c3a
+  // c3b
+true ;
+    // c5
+StringPrefixLenType // c6a
+  // c6b
+= u32 ; // c9a
+  // c9b
+ArrayPrefixLenType = u8
+    // c12
+; } // c14a
+  // c14b
+packet // c15
+Heartbeat // c16a
+  // c16b
 {
-    match
-	zchar
-    as 
-	// " ++ [128512]%N ++ runes_of_ascii " emoji
-int{
-	[
-
-    ""it's""
-
-    ,
-""1""
-
-    ] 
-:// c
-    	tag
-    ,
-
-}  ,
-
-    char
-
-Packet	@lengthOf(
-body
-	)
-,
-	metadata
-    @lengthOf( 
-packetx
-
-    )  ,
-
-@calculatedFrom(
-    """ ++ [128512]%N ++ runes_of_ascii """ ) match 
-repeatCount
-	as  f32a
-	{""" ++ [28040; 24687]%N ++ runes_of_ascii """
-
-    :	chars ,
-
-    } ,@lengthOf(string_
-) char[
-
-    0 
-	    //
-]
-	len @calculatedFrom(""abc""
-)
-,
-    // `tick` ""quote"" 'q'
-
-  u8
-    uint8x
-@lengthOf(
-roots)`say ""hi""`	,int
-
-@calculatedFrom(
-
-""a\""b""
-
-    )
-    ,
-
-    match 
-msg_type  as
-
-    i8i8
-    {  // c
-	""\" ++ [233]%N ++ runes_of_ascii """
-
-    // " ++ [27880; 37322]%N ++ runes_of_ascii "
-
-// packet A { u8 x, }
-	  :
-Header, 1	: zchar
-,[""\n""
-    ]	: string_
-""\n""	:i8i8
-	0123456789
-    : Logon [
-00
-
-    ,
-
-007
-	,
-
-    ""1""
-
-    , 
-      //	t
-  	""it's""  ,
-
-    ""// no comment"" 
-, 0
-, ""a\\"",// packet A { u8 x, }
-  007 ]  :
-    BodyLength
-
-}	,  match  rootA
-    as // c
-
-chars {
-    7:
-// @lengthOf(
-	Header}
-
-    ,
-A Foo 
-`tab	here` ,} ")).
-Eval vm_compute in ("<<<M188>>>" ++ check (runes_of_ascii "// packet A { u8 x, }
-root
-    packet
-    leftPad { @calculatedFrom(
-    //x
-    ""`tick`"" )	@rightPad( )
-    // " ++ [128512]%N ++ runes_of_ascii " emoji
-    string_
-// `tick` ""quote"" 'q'
-// a // b
-@lengthOf(	tag
-    ) `a\` ,i64 T
-    `" ++ [233]%N ++ runes_of_ascii "`,//	t
-}
-packet
-Pad// @lengthOf(
-{ @lengthOf(	float ) char[] x@calculatedFrom(
-    ""a\""b"")
-    , // trailing space 
-@tag(
-    0// " ++ [128512]%N ++ runes_of_ascii " emoji
-) // " ++ [27880; 37322]%N ++ runes_of_ascii "
-repeatCount// packet A { u8 x, }
-,
-repeat rootA{
-_x
-    ,zchar[3 ]roots
-    /// triple
-    `crlf
-line` ,
-}
-,
-/// triple
-// a // b
-match
-    metadata as BodyLength
-    { [
-    // c
-    10 , 10 , ""a\""b"", """"	, ""\n""
-,  ""a\\"" , 4294967296]  :
-    u
-, }
-, repeat	i64_ Packet `" ++ [28040; 24687; 31867; 22411]%N ++ runes_of_ascii "`
-,@tag( // packet A { u8 x, }
-65535)
-    char[] float`it's`
-, char[7 ]
-    x @calculatedFrom( ""{,}"" ),
-    }MetaData leftPad// a // b
-{ body rootA
-`crlf
-line`
-, int64
-msg_type
-`doc`
-    , // @lengthOf(
-}
-")).
-Eval vm_compute in ("<<<M1358>>>" ++ check (runes_of_ascii "options
-	{
-
-    StringPrefixLenType = u16 ;  ArrayPrefixLenType =  u32
-;FixedStringPadFromLeft =true
-    ;	FixedStringPadChar=
-    '0';}
-    packet
-
-Cancel
-	{ }  packet Party
-
-    {
-
-    }
-
-    packet
+    // c17
+string
+    // c18
+msgKind
+    // c19
+, // c20a
+  // c20b
+} // c21a
+  // c21b
+packet // c22
 Logon
-
-    {
-
-}
-	packet
-    Ack{
-} 
-packet
-Logout	{repeat InSym87  { InClordid94 
-{
-
-    string
-    clOrdID
+    // c23
+{ repeat
+    // c25
+Heartbeat // c26a
+  // c26b
+, // c27a
+  // c27b
+repeat // c28
+string // c29
+Px // c30a
+  // c30b
+, // c31
+uint8 // c32a
+  // c32b
+Tail
+    // c33
+, char[]
+    // c35
+f1 // c36a
+  // c36b
 ,
-
-} 
-,string Px
-    , i16
-
-Qty, repeat InCount71 { repeat
-	Cancel  , uint16
-
-Tail, char[ 2
-    ] x 
+    // c37
+} packet
+    // c39
+Cancel // c40
+{ // c41a
+  // c41b
+zchar[ // c42a
+  // c42b
+4
+    // c43
+] OrderId // c45a
+  // c45b
 ,
-
-    repeat
-    string	Ref, 
-}
-	, Cancel
-	, 
-}
-
-    ,
-
-    }
-
+    // c46
+Logon
+    // c47
+,
+    // c48
+repeat InMsgkind98
+    // c50
+{ // c51
+repeat // c52a
+  // c52b
+u8 // c53a
+  // c53b
+tag7 , // c55
+repeat
+    // c56
+InFlags69 // c57
+{ // c58a
+  // c58b
+char[]
+    // c59
+Note // c60
+, // c61a
+  // c61b
+char[] lastPx // c63a
+  // c63b
+, // c64a
+  // c64b
+char[ 11 ] // c67
+Ref ,
+    // c69
+Logon
+    // c70
+, // c71
+} // c72
+, // c73a
+  // c73b
+repeat // c74
+Heartbeat ,
+    // c76
+} // c77
+, // c78a
+  // c78b
+zchar[ // c79
+7
+    // c80
+] // c81a
+  // c81b
+Px
+    // c82
+, // c83
+u32 seqNo ,
+    // c86
+} // c87
 root
+    // c88
+packet Reject // c90
+{ i16 // c92a
+  // c92b
+tag7 // c93
+,
+    // c94
+char[
+    // c95
+3 // c96a
+  // c96b
+] // c97
+Qty // c98a
+  // c98b
+, // c99a
+  // c99b
+InRef42 { u8 pad0 // c103a
+  // c103b
+,
+    // c104
+} // c105
+,
+    // c106
+uint32 // c107a
+  // c107b
+f1 // c108a
+  // c108b
+,
+    // c109
+zchar[ // c110
+7 ] OrderId , // c114a
+  // c114b
+zchar[ // c115a
+  // c115b
+8 // c116
+] x ,
+    // c119
+} ")).
+Eval vm_compute in ("<<<M1551>>>" ++ check (runes_of_ascii "options
+{
+	StringPrefixLenType
+    =u16
+;
+	ArrayPrefixLenType
+=
 
-packet 
-Order { repeat
-	string
-tag7	,
-@leftPad
-(' '	) char[
+u16
+	; }
+	packet
+SampleBinary
 
-    3 ]	Px
-, u8
-Qty  , 
-match Qty as
-    Body
-	{ 
-[
-28 , 62
+    { uint16
 
-    ]
+MsgType  `" ++ [28040; 24687; 31867; 22411]%N ++ runes_of_ascii "`  ,
+
+u16
+BodyLenght @lengthOf(
+
+    Body )`" ++ [28040; 24687; 20307; 38271; 24230]%N ++ runes_of_ascii "`, match	MsgType as
+Body { 
+1
 :
 
-Logon ,  148
-    :
-	Ack ,88
+Logon
 
-    :Party
-	,
-184 :
-Cancel	,
-	},
-u16
+    ,
 
-    Note
-@calculatedFrom( 
-""CRC32""
-)
-,}
+2
+: 
+Logout
+,3 :
 
-")).
-Eval vm_compute in ("<<<M1445>>>" ++ check (runes_of_ascii "
-options {	leftPad 	 // packet A { u8 x, }
-    = 0; 
+    Heartbeat
+	, 
+4
+: RiskControlRequest
 
-//
-	Logon 
-= char  // `tick` ""quote"" 'q'
-i64_	=
-'\x00'  ;
+, 5  :
+	RiskControlResponse ,
+}  ,
+@calculatedFrom(  ""CRC32"" )  u32 Ckecksum
+
+`" ++ [26657; 39564; 21644]%N ++ runes_of_ascii "`
+    ,}
+packet  Logon {@leftPad
+
+( '0'  )  char[
+10
+]
+
+    UserName `" ++ [29992; 25143; 21517]%N ++ runes_of_ascii "` ,
+    string
+	Password `" ++ [23494; 30721]%N ++ runes_of_ascii "`
+    ,
+
+uint64 ClientId `" ++ [23458; 25143; 31471]%N ++ runes_of_ascii "ID` ,	u16 HeartbeatInterval `" ++ [24515; 36339; 38388; 38548]%N ++ runes_of_ascii "`
+, } packet Logout {	@rightPad
+    ('0'
+	)
+
+char[
+
+    10 ]
+	UserName
+
+    `" ++ [29992; 25143; 21517]%N ++ runes_of_ascii "`,uint64
+ClientId 
+`" ++ [23458; 25143; 31471]%N ++ runes_of_ascii "ID`, } packet	Heartbeat{
     }
-options
-{ crc 
-=i32
-	; matchKey
-=
-    255 leftPad	=	' ' ; 
-metadata	=
+packet
+    RiskControlRequest
 
-42 // trailing space 
-;
-	packetx
-= 10
-    } root
-packet  //
-	A
-{
-@calculatedFrom(
-""x y""// c
-  )  /// triple
+    { 
+string
 
-  zchar[00
-    ]
+UniqueOrderId  `" ++ [21807; 19968; 35746; 21333; 21495]%N ++ runes_of_ascii "`
+    ,
+char[
 
-f32a
+    16
 
+]  ClOrdID
+	`" ++ [23458; 25143; 35746; 21333; 21495]%N ++ runes_of_ascii "`	,
+char[
+3 ]MarketID `" ++ [24066; 22330]%N ++ runes_of_ascii "id`
+
+, char[12 ]SecurityID
+
+`" ++ [35777; 21048; 20195; 30721]%N ++ runes_of_ascii "` ,char Side
+    `" ++ [20080; 21334; 26041; 21521]%N ++ runes_of_ascii "`
+	,	char
+    OrderType `" ++ [35746; 21333; 31867; 22411]%N ++ runes_of_ascii "`
+	,
+    u64
+Price  `" ++ [20215; 26684]%N ++ runes_of_ascii "`  ,
+u32
+	Qty
+`" ++ [25968; 37327]%N ++ runes_of_ascii "`
+	, repeat
+string
+    ExtraInfo
+	`" ++ [38468; 21152; 20449; 24687]%N ++ runes_of_ascii "` , 
+repeat
+    SubOrder
+
+{	char[ 16] ClOrdID `" ++ [23376; 35746; 21333; 21495]%N ++ runes_of_ascii "`,
+u64	Price
+
+    `" ++ [23376; 35746; 21333; 20215; 26684]%N ++ runes_of_ascii "` ,u32
+Qty `" ++ [23376; 35746; 21333; 25968; 37327]%N ++ runes_of_ascii "`,
+
+    }
 ,
+	}  packet RiskControlResponse
 
-@tag(
-255 
+    { string UniqueOrderId`" ++ [21807; 19968; 35746; 21333; 21495]%N ++ runes_of_ascii "`  ,	i32 Status `" ++ [29366; 24577]%N ++ runes_of_ascii "` ,
+    string Msg`" ++ [32467; 26524; 20449; 24687]%N ++ runes_of_ascii "`
+
+, repeat Detail
+,
+}
+packet Detail {
+    string RuleName`" ++ [35268; 21017; 21517; 31216]%N ++ runes_of_ascii "`	,u16 Code  `" ++ [21407; 22240; 20195; 30721]%N ++ runes_of_ascii "`
+    ,}
+")).
+Eval vm_compute in ("<<<M83>>>" ++ check (runes_of_ascii "packet  A{
+@rightPad (
+' '
 )
-    zchar[ 0123456789
-
-    ]
-	a1
-	@lengthOf( As )	`" ++ [28040; 24687; 31867; 22411]%N ++ runes_of_ascii "` 
-      /// triple
-  ,
-int16
-
-body
-
-, 	 // `tick` ""quote"" 'q'
-uint64	x	@calculatedFrom(""1""
-//	t
-    // " ++ [128512]%N ++ runes_of_ascii " emoji
-  ) // packet A { u8 x, }
-  `line1
-line2`  ,  @lengthOf(
-	Logon) 
-char[ 
-0 // packet A { u8 x, }
-]  float @calculatedFrom(
-	""abc""),}
-MetaData
-	u128
-
-    {
-}")).
-Eval vm_compute in ("<<<M227>>>" ++ check (runes_of_ascii "packet	crc
-    { @lengthOf(Header )	repeat roots
-    // @lengthOf(
-    `a\` ,
-@lengthOf( tag ) match x as string_{ [ ""a\\"" , ""packet""
-] : Header""// no comment""
-    /// triple
+    // trailing space 
+    zchar[ 42
+    // 50% %s
+    ]MetaDataX , repeat
+int32 // 50% %s
+Logon ,leftPad string_// packet A { u8 x, }
+, @calculatedFrom(	""packet""
+    )
+char[ 3  ]
+    // 50% %s
+    Logon `{ , }` ,	match
+    crc as _x{65535:float, 00
+:
+    BodyLength [
+""" ++ [128512]%N ++ runes_of_ascii """
+    , // `tick` ""quote"" 'q'
+""a\\"" ,// packet A { u8 x, }
+""a\""b"" ,
+""// no comment"" ,  ""\n""
+    , 255	]
     :
-Logon , 7:
-falsey ,7  : metadata [ 7  , 00] :
-    // `tick` ""quote"" 'q'
-    repeatCount 3 : u ,
-},
-    //	t
-    @lengthOf( u128
-//
+    // c
+    MetaDataX ,0 : u8x}
+    , }	options { zchar = false; i64_
+= zchar[ 7
+    ] ; BodyLength =
+    ""1""	i8i8	= // @lengthOf(
+true
+; _x // packet A { u8 x, }
+= ""// no comment""
+; } packet //	t
+crc{
+match	As
+as zchar {0 : leftPad
+,
+[0 , 255 , """ ++ [233]%N ++ runes_of_ascii "t" ++ [233]%N ++ runes_of_ascii """, ""x y""
+    ,
+    ""`tick`"" ,  4294967296 , """ ++ [233]%N ++ runes_of_ascii "t" ++ [233]%N ++ runes_of_ascii """ //	t
+, """" ] :
+stringy [ 0 ,	""{,}"" , ""packet""
+    , 3
+,
+    65535
+,42 ,	""packet"",0 ]:A 00
+    : x }
+,  @tag(	42 )
+    match
+    chars as x {
+[ ""packet"" ,65535 ]
+://x
+T
+    ,
+""" ++ [28040; 24687]%N ++ runes_of_ascii """ : float ,
+""" ++ [28040; 24687]%N ++ runes_of_ascii """
+:packetx 0:
+    /// triple
+    trueish ,""" ++ [128512]%N ++ runes_of_ascii """ :
+pack,} , // packet A { u8 x, }
+@calculatedFrom(""abc"" ) stringy
+pack , }
+    packet msg_type
+{ }
+")).
+Eval vm_compute in ("<<<M158>>>" ++ check (runes_of_ascii "packet
+MetaDataX
+    { A
+    // @lengthOf(
+    @lengthOf( leftPad )
+`// not a comment`, @leftPad( '0' ) zchar[255 ] metadata `tab	here` ,  match Packet
+as x_y_z
+{
+0123456789 :	o ,	007 :
+// 50% %s
+// " ++ [128512]%N ++ runes_of_ascii " emoji
+float, 0: pack,
+42:
+i8i8
+,
+[  3	]
+/// triple
+//x
+: BodyLength , },@lengthOf(
+    // " ++ [128512]%N ++ runes_of_ascii " emoji
+    repeatCount ) match stringy as
+rootA
+{ 00
+// " ++ [128512]%N ++ runes_of_ascii " emoji
+//	t
+: /// triple
+x, 10:  Z9_ /// triple
+,4294967296 : crc , 00	:
+    _x
+, } ,
+repeat x{	uint32	int , repeat string_ metadata, }
+    // " ++ [128512]%N ++ runes_of_ascii " emoji
+    ,@leftPad( ' ' )
+    repeat zchar[ 007]	falsey `tab	here` ,
+    // trailing space 
+    @leftPad	( )	rootA @lengthOf( T)
+, }
+root packet f32a//x
+{ As @calculatedFrom( ""abc""
+) `// not a comment`, }  packet Z9_{ match // " ++ [128512]%N ++ runes_of_ascii " emoji
+falsey as  string_ {""a	b"":  trueish,
+[ 255 , 007
+    ]
+    : falsey
+    """ ++ [28040; 24687]%N ++ runes_of_ascii """ : Header , 00 : /// triple
+string_
+    00
+:	metadata } ,
+    } root
+    packet string_ { repeat int8 T , } 	 ")).
+Eval vm_compute in ("<<<M163>>>" ++ check (runes_of_ascii "packet i8i8 {
+// trailing space 
 // " ++ [27880; 37322]%N ++ runes_of_ascii "
-) @rightPad
-(
-'\x00' // c
+MetaDataX @lengthOf( chars) `" ++ [233]%N ++ runes_of_ascii "` , // 50% %s
+char[]	u128@lengthOf( u8x ) , @lengthOf(
+T )
+float64 repeatCount ,
+    @tag( 00 )
+    MetaDataX ,
+// a // b
+// trailing space 
+uint64 chars
+    `tab	here` , string_/// triple
+@lengthOf( As
+    )	`` //
+, zchar[
+00 ] asx@lengthOf( /// triple
+metadata
 )
-char[] int ,int16 Packet @lengthOf(  string_
-    ) , trueish{ repeat
-crc {zchar
-calculatedFrom , } ,
-} ,
+    `line1
+line2` ,
+@lengthOf(	charz )
+charz
+f32a
+`" ++ [28040; 24687; 31867; 22411]%N ++ runes_of_ascii "` , @rightPad(	'\x00'
+)repeat BodyLength tag , } packet
+repeatCount {
+crc stringy ,}options
+{ zchar = char[]/// triple
+;
+    options1 = false repeatCount
+=""a	b"" body = ""`tick`""}
+// a // b
+//x
+MetaData MetaDataX
+{ Pad repeatCount `u8 x,`
+,
+char[ 42 ] f32a ``
+    , _x	Z9_  ,
+} packet
+Logon { @tag( 007 ) o {
+char
+Packet
+    @lengthOf( repeatCount )
+    //
+    ,} , } // a // b")).
+Eval vm_compute in ("<<<M47>>>" ++ check (runes_of_ascii "packet
+matchKey// a // b
+{@lengthOf(  chars ) options1@lengthOf( len	), match //x
+Packet as Z9_{ [ """ ++ [28040; 24687]%N ++ runes_of_ascii """ , ""1"" , 42
+    ] : u128 // @lengthOf(
+, ""1"" :  roots // c
+,
+00
+: packetx 007 :  repeatCount , 0 :u8x
+    ,
+    //	t
+    } , match leftPad // packet A { u8 x, }
+as msg_type { """"
 // @lengthOf(
 //x
-@rightPad
-( ) repeat
-    _x pack // " ++ [27880; 37322]%N ++ runes_of_ascii "
-, @lengthOf(
-// c
-// trailing space 
-chars)repeat
-    string_ {repeat
-    uint8x`// not a comment`,}
-, }")).
-Eval vm_compute in ("<<<M1591>>>" ++ check (runes_of_ascii "packet int {
-    // @lengthOf(
-    repeat string BodyLength `a\`,
-}
-
-packet repeatCount {
-    @lengthOf(x_y_z)
-    crc,
-    match Packet as Z9_ {
-        ""// no comment"" : MetaDataX,
-        //	t
-        // a // b
-        [00, 7] : chars,
-        ""CRC32"" : zchar,
-        42 : stringy,
-        [""a\""b"", ""1""] : u,
-    },
-    @rightPad(' ')
-    @lengthOf(i64_)
-    repeat f64 x `two words`,
-    @calculatedFrom(""`tick`"")
-    int64 falsey @lengthOf(u128),
-    charz {
-        //x
-        char[] T `a\`,
-    },
-    @lengthOf(u8x)
-    string_,
-    repeat x,
-}")).
-Eval vm_compute in ("<<<M1943>>>" ++ check (runes_of_ascii "options
-
-{float
-= char[]
-	} // packet A { u8 x, }
-
-	root 
-packet
-
-Logon
-    { @tag( 
-1
-	) 	 // a // b
-	  @calculatedFrom(
-
-""packet"" 
-  // a // b
-// " ++ [128512]%N ++ runes_of_ascii " emoji
-
-) 
-zchar[3 
-]
-
-// c
-	//x
-Z9_,
-
-@lengthOf(charz  ) @calculatedFrom( ""1"" )	match
-    roots 
-as
-
-    int 
-{  ""a	b""
-:
-MetaDataX
+: x,
+    ""`tick`"" : u128
+    ,42
+: u128
 ,
-    } ,@calculatedFrom(  ""a\""b"" )match
-asx 
-as lengthOf { 
-""" ++ [128512]%N ++ runes_of_ascii """ 
-: _x ,[
-255
-    ]:
-BodyLength,
-
-    3:	u8x , 0123456789
-: T
-
-} , 
-len
-	@lengthOf( leftPad
-	)
-
-`u8 x,`
-    ,
-    }// @lengthOf(")).
-Eval vm_compute in ("<<<M1677>>>" ++ check (runes_of_ascii "//	t
-packet u8x {
-    u8x {
-        body @calculatedFrom(""`tick`"") `say ""hi""`,
-        match a1 as asx {
-            //	t
-            0 : asx,
-        },
-    },
-    @rightPad()
-    match Logon as x {
-        [00, ""// no comment"", ""a\\"", 0123456789, 4294967296] : crc,
-        00 : options1,
-        // " ++ [27880; 37322]%N ++ runes_of_ascii "
-        42 : i8i8,
-        0 : o,
-        0123456789 : body,
-    },
-    @tag(7)
-    float @lengthOf(stringy) `" ++ [233]%N ++ runes_of_ascii "`,
-    u @lengthOf(msg_type),
-}")).
-Eval vm_compute in ("<<<M1931>>>" ++ check (runes_of_ascii "options {
-}
-
-packet charz {
-    @rightPad(' ')
-    @calculatedFrom(""a\\"")
-    repeat int crc `two words`,
-    string stringy @calculatedFrom(""a	b"") `// not a comment`,//
-    char i8i8,
-}
-
-MetaData crc {
-    // `tick` ""quote"" 'q'
-    crc i64_ `{ , }`,
-    // `tick` ""quote"" 'q'
-    i32 u128,// packet A { u8 x, }
-    BodyLength Header,
-    char[0123456789] Packet `u8 x,`,
-    uint8 repeatCount,//	t
-}")).
-Eval vm_compute in ("<<<M1947>>>" ++ check (runes_of_ascii "// @lengthOf(
-MetaData leftPad {
-    string options1 `say ""hi""`,
-    //x
-    int16 metadata `" ++ [233]%N ++ runes_of_ascii "`,
-    f32 i64_,
-}
-
-packet trueish {
-    // c
-    MetaDataX roots,
-    _x a1,
-    match packetx as charz {
-        0 : f32a,
-    },
-    repeat body Logon,
-}
-
-options {
-    repeatCount = int8
-    charz = char[];
-    msg_type = ""it's""
-    u = 007
-    Z9_ = uint32
+[7 ,	0123456789 , ""\" ++ [233]%N ++ runes_of_ascii """ , 7  ]:
+lengthOf ,""{,}"" :
+T ,  ""packet""
+: Logon} /// triple
+,
     //
-}")).
-Eval vm_compute in ("<<<M1484>>>" ++ check (runes_of_ascii "packet int {
-    T {
-        repeat _x,
-    },
-    i64_ _x `
-        `,
+    char
+    Packet
+, repeat trueish uint8x ,
+repeat zchar[  0 ] pack
+    ,  string Pad,uint16	i8i8
+`say ""hi""` , }
+    packet
+pack{ string
+tag
+    @calculatedFrom(
+""// no comment"" // c
+) , } MetaData rootA
+{string BodyLength, }
+")).
+Eval vm_compute in ("<<<M1746>>>" ++ check (runes_of_ascii "
+options{
+stringy
+	= 00  //
+    f32a	=  // " ++ [128512]%N ++ runes_of_ascii " emoji
+  uint16; u8x 
+= int64
+;	// " ++ [27880; 37322]%N ++ runes_of_ascii "
+	  } 
+root
+    packet
+
+Header  {
+body
+
+{// @lengthOf(
+string
+repeatCount
+@calculatedFrom(
+
+""x y""  ) `// not a comment`  ,match roots
+as 
+uint8x
+    {	""a\\"" : T
+,
+}
+	,
+
+    repeat	i64_ {
+trueish @lengthOf(x_y_z)`" ++ [28040; 24687; 31867; 22411]%N ++ runes_of_ascii "`,
+    } , }
+,  int64 Packet ,
+
+    match
+pack  as
+	zchar
+
+    {""it's""
+
+:
+    Header,
+
+[ ""a\\""
+,
+3
+    ]
+: 
+calculatedFrom ,
+
+00 :
+
+options1	// packet A { u8 x, }
+		, 
+0 
+	    // c
+:
+
+u8x
+
+[
+
+65535  ,0123456789]
+: float 
+255:uint8x,}  , } MetaData
+	u
+{	// a // b
+  	}
+")).
+Eval vm_compute in ("<<<M1834>>>" ++ check (runes_of_ascii "packet rootA {
+    @calculatedFrom(""{,}"")
     @calculatedFrom(""x y"")
-    u32 A,
-    match a1 as i8i8 {
-        [""1"", 4294967296] : a1,
-        """" : a1,
-        007 : a1,
-        [""CRC32""] : Header,
+    char[0] lengthOf,
+    @tag(3)
+    //	t
+    trueish,
+    charz `" ++ [28040; 24687; 31867; 22411]%N ++ runes_of_ascii "`,
+    match u8x as roots {
+        ""x y"" : i64_,
+        ""a\\"" : As,
+        ""CRC32"" : calculatedFrom,
+        ""1"" : msg_type,
+        [""" ++ [233]%N ++ runes_of_ascii "t" ++ [233]%N ++ runes_of_ascii """, 007] : Foo,
     },
-    int64 As,
-    int8 a1,//
-    char[] float `tab	here`,
-    repeat zchar[1] u8x,
-}/// triple")).
+    u32 lengthOf,
+    @lengthOf(options1)
+    x_y_z Logon `100% of %d`,
+    @tag(42)
+    // packet A { u8 x, }
+    A {
+        f32a `u8 x,`,
+    },//x
+    @rightPad(' ')
+    char[65535] f32a `tab	here`,
+    // c
+    /// triple
+}")).
+Eval vm_compute in ("<<<M1311>>>" ++ check (runes_of_ascii "packet A // c1
+{ // c2
+u8 a // c4a
+  // c4b
+,
+    // c5
+}
+    // c6
+packet
+    // c7
+B // c8
+{
+    // c9
+u16 // c10
+b , // c12
+}
+    // c13
+root // c14a
+  // c14b
+packet P {
+    // c17
+u8 K ,
+    // c20
+match // c21
+K // c22
+as
+    // c23
+M // c24a
+  // c24b
+{ [
+    // c26
+1 // c27a
+  // c27b
+, // c28
+2 // c29a
+  // c29b
+]
+    // c30
+:
+    // c31
+A // c32
+, // c33
+3 // c34
+:
+    // c35
+B // c36a
+  // c36b
+, // c37
+7 // c38
+: // c39a
+  // c39b
+A // c40
+,
+    // c41
+} // c42
+, // c43
+} ")).
+Eval vm_compute in ("<<<M1308>>>" ++ check (runes_of_ascii "// top
+packet // c0
+A { // c2a
+  // c2b
+u8 a // c4a
+  // c4b
+, // c5a
+  // c5b
+}
+    // c6
+packet // c7a
+  // c7b
+B { // c9a
+  // c9b
+u16
+    // c10
+b // c11a
+  // c11b
+, // c12a
+  // c12b
+} root
+    // c14
+packet // c15
+P
+    // c16
+{ // c17a
+  // c17b
+u8 K // c19a
+  // c19b
+, // c20a
+  // c20b
+match // c21
+K as M // c24a
+  // c24b
+{
+    // c25
+1 // c26
+: // c27
+A , 1 // c30
+: B // c32a
+  // c32b
+,
+    // c33
+} , // c35a
+  // c35b
+} // c36
+")).
 Eval vm_compute in ("<<<M1379>>>" ++ check (runes_of_ascii "options {
-    LittleEndian = true;
+    ArrayPrefixLenType = u64;
+    FixedStringPadFromLeft = true;
+    FixedStringPadChar = '0';
 }
-packet Logon {
-    u8 x,
+packet Order {
 }
-packet Logout {
-    u16 reason,
-}
-root packet Frame {
-    u8 Kind,
-    u8 Kind2,
-    match Kind as Body {
-        1 : Logon,
-        [2, 3, 4] : Logout,
-        100 : Logon,
+root packet Leg {
+    char[] Ref,
+    repeat Order,
+    f32 Acct,
+    @leftPad('0') char[10] venue,
+    @rightPad('0') char[3] seqNo,
+    repeat u64 Px,
+    u8 Flags,
+    u32 lastPx @lengthOf(Body),
+    match Flags as Body {
+        185 : Order,
     },
-    match Kind2 as Trailer {
-        0 : Logout,
-    },
+    u16 sym @calculatedFrom(""CR\
+C32""),
 }
 ")).
-Eval vm_compute in ("<<<M1876>>>" ++ check (runes_of_ascii "  packet _x
-    {
-    repeat
-
-    char[]
-	matchKey 	 // " ++ [128512]%N ++ runes_of_ascii " emoji
-  , @leftPad (  )  x_y_z	/// triple
-
-T
-
-    , 
-Pad
-{
-zchar[
-
-1]  rootA
-
-    `tab	here` , }
-    , Foo
-    @calculatedFrom(
-"""" 
-
-// trailing space 
-  	) ,	} packet
-    MetaDataX { float64	body
-,}")).
-Eval vm_compute in ("<<<M1912>>>" ++ check (runes_of_ascii "// top
-MetaData leftPad {
-    // c2
-    chars MetaDataX,// c5a
+Eval vm_compute in ("<<<M1838>>>" ++ check (runes_of_ascii "// top
+options {
+    // c1a
+    // c1b
+    FixedStringPadChar = '0';// c5a
     // c5b
 }
 
-packet repeatCount {
-    char[255] uint8x `" ++ [233]%N ++ runes_of_ascii "`,
-    // c15
-}// c16a
+packet Q {
+    // c9a
+    // c9b
+    zchar[4] z,// c14
+    @rightPad('\x00')
+    char[3] n,// c23a
+    // c23b
+    char[5] d,// c28a
+    // c28b
+}// c29a
 
-// c16b
-MetaData pack {
-    // c19a
-    // c19b
-    As Foo,
-    // c22
-}// c23a
-// c23b")).
-Eval vm_compute in ("<<<M318>>>" ++ check (runes_of_ascii "options {Z9_ =// trailing space 
-""packet"" ;float = false
-; A =
-' ' }
-    // c
-    MetaData pack
-{ zchar[
-3] leftPad
-,zchar
-    falsey `it's` , char[] repeatCount ,char[ 65535 // " ++ [128512]%N ++ runes_of_ascii " emoji
-] Z9_, }
-//	t
+// c29b
+root packet R {
+    // c33a
+    // c33b
+    Q,
+    // c35
+    zchar[8] top,// c40a
+    // c40b
+    repeat zchar[2] zs,// c46
+}// c47")).
+Eval vm_compute in ("<<<M293>>>" ++ check (runes_of_ascii "MetaData o { float32 Z9_`two words` ,char[0123456789 ] As , char[
+4294967296 ]
+u8x`100% of %d`	, /// triple
+}
+packet u8x { @rightPad // packet A { u8 x, }
+( ' '	) match len as packetx
+{
+    [ ""a	b"",//	t
+10 , 42, 007 ,  4294967296	,
+    ""packet"" , ""it's""
+]
+: x_y_z  0	:  o , },
+}MetaData calculatedFrom { char[
+    // @lengthOf(
+    3
+]
+len ,
+    }")).
+Eval vm_compute in ("<<<M1200>>>" ++ check (runes_of_ascii "// top
+options // c0
+{ // c1a
+  // c1b
+}
+    // c2
+options // c3
+{
+    // c4
+MetaDataX
+    // c5
+= // c6a
+  // c6b
+char // c7a
+  // c7b
+; } // c9
+MetaData // c10
+Pad // c11
+{ // c12
+i8 metadata // c14a
+  // c14b
+, // c15
+string // c16a
+  // c16b
+stringy , int8 // c19a
+  // c19b
+As // c20
+`{ , }`
+    // c21
+, } ")).
+Eval vm_compute in ("<<<M1706>>>" ++ check (runes_of_ascii "
+
+  // c
+    options
+
+{
+    As= 
+'0'// 50% %s
+;
+    float	= 
+
+    //
+char[] u	=
+""a\""b"";
+	msg_type	=
+    u32 ; falsey=7
+    ; /// triple
+  }
+
+    // a // b
+	packet
+
+x_y_z
+    {
+
+    T  // " ++ [27880; 37322]%N ++ runes_of_ascii "
+  ``
+
+,	}
+packet	pack
+{
+
+@leftPad( ) rootA
+    float
+
+,
+}  // packet A { u8 x, }
+ 
 ")).
-Eval vm_compute in ("<<<M1489>>>" ++ check (runes_of_ascii "packet len {
+Eval vm_compute in ("<<<M1331>>>" ++ check (runes_of_ascii "packet P1 {
+    u8 a,
+}
+packet P2 {
+    P1,
+}
+packet P3 {
+    P2,
+    P1,
+}
+packet P4 {
+    repeat P3,
+    P2,
+}
+root packet P5 {
+    P4,
+    P3,
+    P1,
+    u8 K,
+    match K as Body {
+        4 : P4,
+        3 : P3,
+        2 : P2,
+        1 : P1,
+    },
+}
+")).
+Eval vm_compute in ("<<<M53>>>" ++ check (runes_of_ascii "  root packet _x{ uint32 //	t
+trueish @calculatedFrom(""1"" ) `tab	here`
+    , } packet Header
+    {repeat
+    u64 stringy `u8 x,` ,float32
+    msg_type
+, repeat
+x_y_z crc `two words`
+, zchar[ // c
+007 ] Packet ,
+    string asx `say ""hi""`
+,}
+")).
+Eval vm_compute in ("<<<M493>>>" ++ check (runes_of_ascii "packet
+    asx { @calculatedFrom(
+""""  ) @tag( 255 )repeat
+// packet A { u8 x, }
+// trailing space 
+int16 u8x
+,
+@tag(
+    //
+    007 )
+    @tag( 0
+    /// triple
+    ) @tag( 1 u )
+    @lengthOf( T ),
+// `tick` ""quote"" 'q'
+//x
+} // " ++ [128512]%N ++ runes_of_ascii " emoji")).
+Eval vm_compute in ("<<<M473>>>" ++ check (runes_of_ascii "packet
+    asx { @calculatedFrom(
+""""  ) @tag( 255 )repeat
+// packet A { u8 x, }
+// trailing space 
+int16 u8x
+,
+@tag(
+    //
+    007 )
+    @tag( )
+    /// triple
+    0 @tag( 1) u
+    @lengthOf( T ),
+// `tick` ""quote"" 'q'
+//x
+} // " ++ [128512]%N ++ runes_of_ascii " emoji")).
+Eval vm_compute in ("<<<M544>>>" ++ check (runes_of_ascii "packet
+    x" ++ [178]%N ++ runes_of_ascii " { @calculatedFrom(
+""""  ) @tag( 255 )repeat
+// packet A { u8 x, }
+// trailing space 
+int16 u8x
+,
+@tag(
+    //
+    007 )
+    @tag( 0
+    /// triple
+    ) @tag( 1) u
+    @lengthOf( T ),
+// `tick` ""quote"" 'q'
+//x
+} // " ++ [128512]%N ++ runes_of_ascii " emoji")).
+Eval vm_compute in ("<<<M401>>>" ++ check (runes_of_ascii "packet
+    asx { 
+""""  ) @tag( 255 )repeat
+// packet A { u8 x, }
+// trailing space 
+int16 u8x
+,
+@tag(
+    //
+    007 )
+    @tag( 0
+    /// triple
+    ) @tag( 1) u
+    @lengthOf( T ),
+// `tick` ""quote"" 'q'
+//x
+} // " ++ [128512]%N ++ runes_of_ascii " emoji")).
+Eval vm_compute in ("<<<M520>>>" ++ check (runes_of_ascii "packet
+    asx { @calculatedFrom(
+""""  ) @tag( 255 )repeat
+// packet A { u8 x, }
+// trailing space 
+int16 u8x
+,
+@tag(
+    //
+    007 )
+    @tag( 0
+    /// triple
+    ) @tag( 1) u
+    @lengthOf( T )")).
+Eval vm_compute in ("<<<M1589>>>" ++ check (runes_of_ascii "packet
+	_x
+
+{ @calculatedFrom( ""packet"")
+    char[]
+	T  `" ++ [28040; 24687; 31867; 22411]%N ++ runes_of_ascii "`
+,@calculatedFrom(
+""" ++ [28040; 24687]%N ++ runes_of_ascii """	) f64
+
+    pack `" ++ [233]%N ++ runes_of_ascii "`
+
+    ,
+@calculatedFrom(
+
+""a	b"" 
+)
+	repeat  crc
+
+`100% of %d`	//
+
+,
+}
+
+")).
+Eval vm_compute in ("<<<M622>>>" ++ check (runes_of_ascii "MetaData u
+    { } MetaData o
+{ float uint8x
+`100% of %d` ,repeatCount u8x, string_ leftPad leftPad
+, i32
+    Foo , int64 x `two words` , calculatedFrom
+stringy `a\` ,
+}
+")).
+Eval vm_compute in ("<<<M552>>>" ++ check (runes_of_ascii "MetaData u u
+    { } MetaData o
+{ float uint8x
+`100% of %d` ,repeatCount u8x, string_ leftPad
+, i32
+    Foo , int64 x `two words` , calculatedFrom
+stringy `a\` ,
+}
+")).
+Eval vm_compute in ("<<<M1292>>>" ++ check (runes_of_ascii "// top
+root // c0
+packet // c1
+P { // c3
+u16 a , u32
+    // c7
+Sum // c8a
+  // c8b
+@calculatedFrom( ""CRC32""
+    // c10
+)
+    // c11
+, // c12a
+  // c12b
+}
+    // c13
+")).
+Eval vm_compute in ("<<<M663>>>" ++ check (runes_of_ascii "MetaData u
+    { } MetaData o
+{ float uint8x
+`100% of %d` ,repeatCount u8x, string_ leftPad
+, i32
+    Foo , int64 x `two words` calculatedFrom ,
+stringy `a\` ,
+}
+")).
+Eval vm_compute in ("<<<M636>>>" ++ check (runes_of_ascii "MetaData u
+    { } MetaData o
+{ float uint8x
+`100% of %d` ,repeatCount u8x, string_ leftPad
+, i32
+     , int64 x `two words` , calculatedFrom
+stringy `a\` ,
+}
+")).
+Eval vm_compute in ("<<<M1632>>>" ++ check (runes_of_ascii "  root  packet 	 // " ++ [27880; 37322]%N ++ runes_of_ascii "
+    matchKey	{ Z9_@calculatedFrom(
+    """"
+)
+	, }  MetaData
+	pack {
+u32
+	leftPad 
+,
+
+x
+    zchar  ,
+    uint32
+i8i8  ,
+u16 zchar ,	} ")).
+Eval vm_compute in ("<<<M1757>>>" ++ check (runes_of_ascii "packet
+A
+    {
+match 
+k
+as n
+{
+	[  ""a"", ""bb"" ,
+
+    007,""d""
+
+, ""e""
+,
+66,
+
+""g""
+,
+    ""h""
+
+    ,9 
+,
+
+    ""j""
+
+]
+
+    : B
+,
+2 : C
+}
+, }
+
+")).
+Eval vm_compute in ("<<<M690>>>" ++ check (runes_of_ascii "MetaData u
+    { } MetaData o
+{ float uint8x
+`100% of %d` ,repeatCount u8x, string_ leftPad
+, i32
+    Foo , int64 x `two words` , cal")).
+Eval vm_compute in ("<<<M1890>>>" ++ check (runes_of_ascii "options {
 }
 
 options {
-    Z9_ = 4294967296;
-    _x = 0
-    f32a = zchar[42];
+    MetaDataX = char;
 }
 
-root packet BodyLength {
-}
-
-options {
-    string_ = u32;
-    charz = string;
-}
-
-packet len {
+MetaData Pad {
+    // c
+    i8 metadata,
+    string stringy,
+    int8 As `{ , }`,
 }")).
-Eval vm_compute in ("<<<M1940>>>" ++ check (runes_of_ascii "packet A {
+Eval vm_compute in ("<<<M1938>>>" ++ check (runes_of_ascii "
+packet
+
+    A	{ match
+
+k	as
+
+n {
+
+[ 1
+,22, 007
+, 4
+    ,
+5 
+,
+66
+    , 
+7  , 8 
+,
+9 ,	10
+]  : 
+B , 
+2
+:  C	} 
+,}
+")).
+Eval vm_compute in ("<<<M1205>>>" ++ check (runes_of_ascii "options { // c
+} options { MetaDataX = char ; } MetaData Pad { i8 metadata , string stringy , int8 As `{ , }` , }")).
+Eval vm_compute in ("<<<M1237>>>" ++ check (runes_of_ascii "options { } options { MetaDataX = char ; } MetaData Pad { i8 metadata , string stringy // c
+, int8 As `{ , }` , }")).
+Eval vm_compute in ("<<<M1894>>>" ++ check (runes_of_ascii "packet
+
+    A { match k 
+as
+    n{
+    [
+    ""a"" , ""bb"" ,
+007
+	,""d""
+
+,	""e"" 
+]
+
+: B
+    , 2 :C
+
+    }
+	, }")).
+Eval vm_compute in ("<<<M1564>>>" ++ check (runes_of_ascii "
+packet A  { 
+match
+k 
+as n { [1 ,
+
+22 ,
+
+    007 ,  4,5  ,	66
+
+    ,
+    7
+]
+:
+B
+	,2 :C }	, }
+")).
+Eval vm_compute in ("<<<M127>>>" ++ check (runes_of_ascii "root packet MetaDataX{
+} options  {	rootA = 7
+    ; _x = ""it's"" ; matchKey = 3 }
+packet rootA
+{}
+")).
+Eval vm_compute in ("<<<M884>>>" ++ check (runes_of_ascii "packet A {
+  match k as n {
+    [1, 22, ""c c"", 4, 5, ""f"", 7, 8, ""i"", 10] : B,
+    2 : C
+  },
+}")).
+Eval vm_compute in ("<<<M1671>>>" ++ check (runes_of_ascii "
+
+  MetaData
+	    //
+
+// " ++ [128512]%N ++ runes_of_ascii " emoji
+
+falsey
+{ char[]
+    f32a , //	t
+    }
+	packet
+As
+{  } ")).
+Eval vm_compute in ("<<<M985>>>" ++ check (runes_of_ascii "packet A {
+    u32 crc @calculatedFrom(""x\
+y""),
+    @calculatedFrom(""x\
+y"") u8 y,
+}")).
+Eval vm_compute in ("<<<M1633>>>" ++ check (runes_of_ascii "packet
+
+    A
+
+{ Inner{ 
+u8
+
+    x
+	`
+`,
+Deep { u8
+y
+	`
+`
+    ,
+	} ,
+}
+	,} ")).
+Eval vm_compute in ("<<<M1262>>>" ++ check (runes_of_ascii "
+packet Inner	{ 
+u8	a ,
+
+} root packet P{Inner
+
+ref_obj
+	,
+u8
+
+    x
+
+, }
+")).
+Eval vm_compute in ("<<<M1888>>>" ++ check (runes_of_ascii "// c
+packet options1 {	options1 x
+    , }
+	options
+{ 
+Logon=
+
+float32	}
+")).
+Eval vm_compute in ("<<<M1687>>>" ++ check (runes_of_ascii "packet A {
     match k as n {
-        [
-            1, 22, ""c c"", 4, 5,
-            ""f"", 7, 8, ""i"", 10,
-            11, ""l""
-        ] : B,
+        [1] : B,
         2 : C,
     },
 }")).
-Eval vm_compute in ("<<<M411>>>" ++ check (runes_of_ascii "packet uint8x
-{ match pack pack
-    as msg_type	{
-    0123456789 :	float
-}
-,
-} packet //	t
-a1
-    { } options {packetx
-    = '\x00'	; u128= ""a	b""  ; }
-")).
-Eval vm_compute in ("<<<M476>>>" ++ check (runes_of_ascii "packet uint8x
-{ match pack
-    as msg_type	{
-    0123456789 :	float
-}
-,
-} packet //	t
-a1
-    { } } options {packetx
-    = '\x00'	; u128= ""a	b""  ; }
-")).
-Eval vm_compute in ("<<<M402>>>" ++ check (runes_of_ascii "packet uint8x
-match { pack
-    as msg_type	{
-    0123456789 :	float
-}
-,
-} packet //	t
-a1
-    { } options {packetx
-    = '\x00'	; u128= ""a	b""  ; }
-")).
-Eval vm_compute in ("<<<M400>>>" ++ check (runes_of_ascii "packet uint8x
- match pack
-    as msg_type	{
-    0123456789 :	float
-}
-,
-} packet //	t
-a1
-    { } options {packetx
-    = '\x00'	; u128= ""a	b""  ; }
-")).
-Eval vm_compute in ("<<<M698>>>" ++ check (runes_of_ascii "// @lengthOf(
-packet i8i8 { u128 o , }
-options { MetaDataX = true;
-    BodyLength =""packet"" x_y_z= 007
-crc //x
-= ""abc"" ;
-    msg_type =
-i16 i16 }")).
-Eval vm_compute in ("<<<M460>>>" ++ check (runes_of_ascii "packet uint8x
-{ match pack
-    as msg_type	{
-    0123456789 :	float
-}
-,
-}  //	t
-a1
-    { } options {packetx
-    = '\x00'	; u128= ""a	b""  ; }
-")).
-Eval vm_compute in ("<<<M137>>>" ++ check (runes_of_ascii "
-packet u128//x
-{ @calculatedFrom(  ""x y""
-    ) // `tick` ""quote"" 'q'
-@rightPad (  ' ') char[ 42 ]  Header
-    @calculatedFrom( ""abc"" ),  }
-
-")).
-Eval vm_compute in ("<<<M658>>>" ++ check (runes_of_ascii "// @lengthOf(
- i8i8 { u128 o , }
-options { MetaDataX = true;
-    BodyLength =""packet"" x_y_z= 007
-crc //x
-= ""abc"" ;
-    msg_type =
-i16 }")).
-Eval vm_compute in ("<<<M514>>>" ++ check (runes_of_ascii "packet uint8x
-{ match pack
-    as msg_type	{
-    0123456789 :	float
-}
-,
-} packet //	t
-a1
-    { } options {packetx
-    = '\x00'	;")).
-Eval vm_compute in ("<<<M1407>>>" ++ check (runes_of_ascii "packet
-
-A
-	{
-match
-
-k	as  n 
-{
-	[	""a""
-    ,
-    22 ,
-""c c"" , 
-4
-    ,""e"" ,
-
-    66 
-,  ""g""
-	, 8
-
-] : B 
-2
-	:C
-    },
-
-}
-
-")).
-Eval vm_compute in ("<<<M1146>>>" ++ check (runes_of_ascii "MetaData leftPad
-// c
-{ chars MetaDataX , } packet repeatCount { char[ 255 ] uint8x `" ++ [233]%N ++ runes_of_ascii "` , } MetaData pack { As Foo , }")).
-Eval vm_compute in ("<<<M1178>>>" ++ check (runes_of_ascii "MetaData leftPad { chars MetaDataX , } packet repeatCount { char[ 255 ] uint8x `" ++ [233]%N ++ runes_of_ascii "` , } MetaData
-// c
-pack { As Foo , }")).
-Eval vm_compute in ("<<<M1746>>>" ++ check (runes_of_ascii "packet
-	asx
-
-{
-	match
-	u128	as 
-lengthOf
-{
-        //	t
-	// `ti/ck` ""quote"" 'q'
-    255
-
-    : x
-,
-    } ,}
-")).
-Eval vm_compute in ("<<<M949>>>" ++ check (runes_of_ascii "packet A {
-    u16 len @lengthOf(body) `x
-`,
-    u32 crc @calculatedFrom(""CRC32"") `x
-`,
-    string body,
-}")).
-Eval vm_compute in ("<<<M868>>>" ++ check (runes_of_ascii "packet A {
+Eval vm_compute in ("<<<M786>>>" ++ check (runes_of_ascii "packet A {
   match k as n {
-    [""a"", ""bb"", ""c c"", ""d"", ""e"", ""f"", ""g"", ""h"", ""i""] : B
+    [1, 22, 007] : B
     2 : C
   },
 }")).
-Eval vm_compute in ("<<<M932>>>" ++ check (runes_of_ascii "packet A {
-    Inner {
-        u8 x `
-`,
-        Deep {
-            u8 y `
-`,
-        },
-    },
+Eval vm_compute in ("<<<M952>>>" ++ check (runes_of_ascii "packet A {
+    B b `
+x`,
+    B `
+x`,
+    repeat B bs `
+x`,
 }")).
-Eval vm_compute in ("<<<M593>>>" ++ check (runes_of_ascii "
-packet
-    asx {match u128 as lengthOf
-{
-//	t
-// `tick` ""quote"" 'q'
-255 255 : x ,
-    } ,	}")).
-Eval vm_compute in ("<<<M639>>>" ++ check (runes_of_ascii "
-packet
-    asx {match u128 as lengthOf
-{
-//	t
-// `tick` ""quote"" 'q'
-255 : x ,
-    } ,	"" }")).
-Eval vm_compute in ("<<<M594>>>" ++ check (runes_of_ascii "
-packet
-    asx {match u128 as lengthOf
-{
-//	t
-// `tick` ""quote"" 'q'
-: 255 x ,
-    } ,	}")).
-Eval vm_compute in ("<<<M828>>>" ++ check (runes_of_ascii "packet A {
-  match k as n {
-    [""a"", ""bb"", ""c c"", ""d"", ""e"", ""f""] : B,
-    2 : C
-  },
-}")).
-Eval vm_compute in ("<<<M866>>>" ++ check (runes_of_ascii "packet A {
-  match k as n {
-    [1, 22, 007, 4, 5, 66, 7, 8, 9] : B
-    2 : C
-  },
-}")).
-Eval vm_compute in ("<<<M1273>>>" ++ check (runes_of_ascii "options {
-    FixedStringPadFromLeft = true;
-}
-root packet P {
-    char[4] z,
-}
-")).
-Eval vm_compute in ("<<<M743>>>" ++ check (runes_of_ascii "int16 zchar[ } `doc` char u16 uint16 true false u8 msg_type """ ++ [233]%N ++ runes_of_ascii "t" ++ [233]%N ++ runes_of_ascii """ ""a\\"" pack")).
-Eval vm_compute in ("<<<M805>>>" ++ check (runes_of_ascii "packet A {
-  match k as n {
-    [1, ""bb"", 007, ""d""] : B
-    2 : C
-  },
-}")).
-Eval vm_compute in ("<<<M768>>>" ++ check (runes_of_ascii "char = char[] options char[] ] uint64 metadata match 1 zchar[ int16")).
-Eval vm_compute in ("<<<M1595>>>" ++ check (runes_of_ascii "packet A  { match
+Eval vm_compute in ("<<<M1695>>>" ++ check (runes_of_ascii "
 
-k as
-    n
-{
-1
-	:B// c
-, // d
-  }
-    ,
-}
+  options { Logon=
+	""" ++ [28040; 24687]%N ++ runes_of_ascii """	; BodyLength
+    = false
+;}
+
 ")).
-Eval vm_compute in ("<<<M1287>>>" ++ check (runes_of_ascii "root packet P {
-    repeat string ss,
-    repeat u16 ns,
-}
-")).
-Eval vm_compute in ("<<<M1093>>>" ++ check (runes_of_ascii "packet A { repeat // a
- B // b
- b // c
- `d` // e
- , }")).
-Eval vm_compute in ("<<<M1218>>>" ++ check (runes_of_ascii "packet body { i32 f32a `{ , }` , } options {
+Eval vm_compute in ("<<<M1807>>>" ++ check (runes_of_ascii "MetaData M {
+    u8 x `
+    `,
+    T t `
+    `,
+}")).
+Eval vm_compute in ("<<<M1114>>>" ++ check (runes_of_ascii "packet A { char[ // a
+ 3 // b
+ ] // c
+ x, }")).
+Eval vm_compute in ("<<<M762>>>" ++ check (runes_of_ascii "= options match """ ++ [233]%N ++ runes_of_ascii "t" ++ [233]%N ++ runes_of_ascii """ uint32 ; ""CRC32""")).
+Eval vm_compute in ("<<<M1188>>>" ++ check (runes_of_ascii "options { A
 // c
-}")).
-Eval vm_compute in ("<<<M755>>>" ++ check (runes_of_ascii "string i8 ) } u8 [ uint32 ] } = uint8 '\x00'")).
-Eval vm_compute in ("<<<M1240>>>" ++ check (runes_of_ascii "root packet P {
-    char c,
-    u8 x,
-}
+= ""// no comment"" }")).
+Eval vm_compute in ("<<<M737>>>" ++ check (runes_of_ascii ") ""\n"" char repeat repeat ; char[")).
+Eval vm_compute in ("<<<M1598>>>" ++ check (runes_of_ascii "
+
+  options {
+asx
+	=false  ;}
+
 ")).
-Eval vm_compute in ("<<<M1920>>>" ++ check (runes_of_ascii "// top
-MetaData u {
-    // c2
-}// c3")).
-Eval vm_compute in ("<<<M1414>>>" ++ check (runes_of_ascii "packet A {
-    u8 x `d" ++ [8203]%N ++ runes_of_ascii "`,// c" ++ [8203]%N ++ runes_of_ascii "
-}")).
-Eval vm_compute in ("<<<M1023>>>" ++ check (runes_of_ascii "packet A {
- u8 x `d" ++ [8239]%N ++ runes_of_ascii "`, // c" ++ [8239]%N ++ runes_of_ascii "
-}")).
-Eval vm_compute in ("<<<M1711>>>" ++ check (runes_of_ascii "// " ++ [128512]%N ++ runes_of_ascii " emoji
-MetaData crc {
-}")).
-Eval vm_compute in ("<<<M770>>>" ++ check (runes_of_ascii "EJYa-@ZpfaJe_ojrLyZC9M")).
-Eval vm_compute in ("<<<M1129>>>" ++ check (runes_of_ascii "
-// c
-MetaData u { }")).
-Eval vm_compute in ("<<<M987>>>" ++ check (runes_of_ascii "// c" ++ [160]%N ++ runes_of_ascii "
+Eval vm_compute in ("<<<M744>>>" ++ check (runes_of_ascii "=_?xc%p\XM[z`Z.E8&!3PsEU?W+/")).
+Eval vm_compute in ("<<<M756>>>" ++ check (runes_of_ascii "*P%lQ*-j/'2~6mR?IfmeZN9s")).
+Eval vm_compute in ("<<<M1083>>>" ++ check (runes_of_ascii "packet A {
+}// a// b")).
+Eval vm_compute in ("<<<M1016>>>" ++ check (runes_of_ascii "// c" ++ [5760]%N ++ runes_of_ascii "
 packet A {
 }")).
-Eval vm_compute in ("<<<M1232>>>" ++ check (runes_of_ascii "packet x { } // c
+Eval vm_compute in ("<<<M285>>>" ++ check (runes_of_ascii "packet rootA
+{  }")).
+Eval vm_compute in ("<<<M565>>>" ++ check (runes_of_ascii "MetaData u
+    {")).
+Eval vm_compute in ("<<<M1879>>>" ++ check (runes_of_ascii "// c" ++ [6158]%N ++ runes_of_ascii "
+ 
 ")).
-Eval vm_compute in ("<<<M1520>>>" ++ check (runes_of_ascii "packet Packet {
-}")).
-Eval vm_compute in ("<<<M1837>>>" ++ check (runes_of_ascii "
-/// triple")).
-Eval vm_compute in ("<<<M1045>>>" ++ check (runes_of_ascii "// c" ++ [8203]%N)).
+Eval vm_compute in ("<<<M115>>>" ++ check (runes_of_ascii "
+
+")).
